@@ -30,6 +30,8 @@ TEMPLATES: list[tuple[str, str, str]] = [
     ("inh", "simple", "{· inherit· a· b·;· }"),
     ("inhfrom", "simple", "{· inherit· (·E·)· a· b·;· }"),
     ("inhq", "simple", "{· inherit· \"q\"·;· }"),
+    ("inhdyn", "simple", "{· inherit· (·E·)· ${·F·}·;· }"),
+    ("inhdyn2", "simple", "{· inherit· a· ${·F·}·;· }"),
     ("list0", "simple", "[· ]"),
     ("list1", "simple", "[· E· ]"),
     ("list2", "simple", "[· E· F· ]"),
